@@ -44,6 +44,23 @@ CONVEX = """<mujoco><option timestep="0.004" {opt}/><worldbody><geom type="plane
   <body pos="-0.04 -0.03 {z2}"><freejoint/><geom type="cylinder" size="{c}"/></body></worldbody></mujoco>"""
 
 
+ELLC = """<mujoco><option timestep="0.004" cone="elliptic" jacobian="sparse"/><worldbody><geom type="plane" size="3 3 .1" condim="{cd}" friction="0.8 0.02 0.01"/>
+  <body pos="0 0 0.099"><freejoint/><geom type="sphere" size=".1" condim="{cd}" friction="0.8 0.02 0.01"/></body>
+  <body pos="0.5 0 {z}"><freejoint/><geom type="box" size=".1 .1 .1" condim="{cd}" friction="0.6 0.03 0.02"/></body></worldbody></mujoco>"""
+
+
+def _slide_states(mjm, nworld):
+  import mujoco
+
+  out = []
+  for w in range(nworld):
+    d = mujoco.MjData(mjm)
+    d.qvel[0:6] = [0.6 + 0.1 * w, -0.3, 0.0, 2.0, -1.0, 3.0]  # sliding and spinning sphere: contact in the cone's middle zone
+    d.qvel[6:12] = [-0.2, 0.4, 0.0, 0.5, 0.5, -2.0]
+    out.append(d)
+  return out
+
+
 IMPL = """<mujoco><option timestep="0.004" integrator="implicit"/><worldbody>
   <body pos="0 0 1">{j}<geom type="box" size=".1 .07 .05" pos="0.03 0.02 0.01" contype="0" conaffinity="0"/></body></worldbody></mujoco>"""
 
@@ -90,6 +107,9 @@ ITEMS = {
   # same (nworld, nbody, nv), one with a free joint and one without, implicit integrator (derivative scratch buffers keyed by shape)
   "impl_free": dict(xml=lambda: IMPL.format(j='<freejoint/>'), states=_spin_states),
   "impl_6dof": dict(xml=lambda: IMPL.format(j='<joint type="hinge" axis="1 0 0"/><joint type="hinge" axis="0 1 0"/><joint type="hinge" axis="0 0 1"/><joint type="slide" axis="1 0 0"/><joint type="slide" axis="0 1 0"/><joint type="slide" axis="0 0 1"/>'), states=_spin_states),
+  # same kernel builders, different max contact dimension (a static argument of the elliptic sparse Hessian kernel)
+  "ell_condim4": dict(xml=lambda: ELLC.format(cd=4, z="0.099"), states=_slide_states),
+  "ell_condim6": dict(xml=lambda: ELLC.format(cd=6, z="0.0985"), states=_slide_states),
   "convex_ccd4": dict(xml=lambda: CONVEX.format(opt='ccd_iterations="4"', b=".25 .15 .1", e=".07 .05 .06", c=".04 .05", z1="0.255", z2="0.247"), states=_default_states),
 }
 for _it in ITEMS.values():
@@ -117,8 +137,9 @@ def scenarios(tier, seed):
 
   out = []
   if tier == "quick":
-    for h in (["impl_free"], ["impl_6dof"], ["impl_6dof", "impl_free"], ["impl_free", "impl_6dof"]):
-      out.append(dict(history=h))
+    for a, b in (("impl_free", "impl_6dof"), ("ell_condim4", "ell_condim6")):
+      for h in ([a], [b], [a, b], [b, a]):
+        out.append(dict(history=h))
     for target in QUICK_NAMES:
       for n in range(0, 2):
         for prefix in itertools.product(QUICK_NAMES, repeat=n):
@@ -130,7 +151,7 @@ def scenarios(tier, seed):
     for n in range(0, 2):
       for prefix in itertools.product(NAMES, repeat=n):
         out.append(dict(history=list(prefix) + [target]))
-  core = ["rich", "boxes", "boxes_nonative", "convex", "convex_ccd4"]
+  core = ["rich", "boxes_nonative", "convex_ccd4", "ell_condim4", "ell_condim6"]
   for h in itertools.product(core, repeat=3):
     out.append(dict(history=list(h)))
   return out
